@@ -220,6 +220,34 @@ theorem c11_refresh (cn : List Char) (e : Ext) (p : Peer) (env : Env) :
               obtain ⟨f, hf, _, s, hs, b, hb, hc⟩ := verifyFams_true h1'
               exact ⟨b, extractFams_mem (by simpa [extractWith] using h2) hf hs hb, hc⟩
 
+/-- **A certificate that carries the extension is only ever an IP credential**: for every chain
+length, every extension value that is present (well-formed, malformed, empty, foreign families only,
+unparsable) and every peer, `checkAuth(…, AuthTypeAny)` names a user only if a well-formed IPv4
+block of that extension contains the TCP peer and the certificate is in good standing.  A malformed
+extension never turns the certificate into an ordinary keymaster identity. -/
+theorem c11_restricted_never_plain (chainLen : Nat) (cn : List Char) (e : Ext) (p : Peer) (env : Env)
+    (he : e ≠ .absent) (u : List Char) (h : authAny chainLen cn e p env = .user u) :
+    u = cn ∧ verify e p = .ok true ∧
+    env.denied = false ∧ env.automation = true ∧ env.revoked = false ∧
+    ∃ fs, e = .parsed fs ∧ ∃ f ∈ fs, f.afi = v4afi ∧ ∃ s ∈ f.addrs, ∃ b, decode s = .ok b ∧
+      contains b p = true := by
+  have hr : e.restricted = true := by cases e <;> simp_all [Ext.restricted]
+  unfold authAny authAnyWith at h
+  simp only [hr, Bool.true_eq_false, false_and, and_false, if_false] at h
+  unfold ipAuthWith at h
+  cases h1 : verifyWith decode e p with
+  | panic => simp [h1] at h
+  | err => simp [h1] at h
+  | ok t =>
+    cases t with
+    | false => simp [h1] at h
+    | true =>
+      cases hd : env.denied <;> cases ha : env.automation <;> cases hrv : env.revoked <;>
+        simp [h1, hd, ha, hrv] at h
+      have hv : verify e p = .ok true := h1
+      obtain ⟨fs, hfs, f, hf, hafi, s, hs, b, hb, hc, _⟩ := c11_malformed.2.2.1 e p hv
+      exact ⟨h.symm, hv, rfl, rfl, rfl, fs, hfs, f, hf, hafi, s, hs, b, hb, hc⟩
+
 /-- **Refresh of a minted certificate**: for a certificate minted for canonical netblocks `bs`
 under the name `cn`, presented by a peer in good standing, refresh succeeds iff the peer is inside
 one of `bs`, and then yields `(cn, bs)` again; from anywhere else it is 403 (or 500 for a peer
